@@ -245,3 +245,27 @@ Print Assumptions C09_new_element_empty.
 Example C09_history_nonvacuous : Forall query_ok c09_history /\ all_succeed rv_fixed db_new c09_history.
 Proof. exact c09_history_ok. Qed.
 Print Assumptions C09_history_nonvacuous.
+
+(* ---- all histories, UNCONDITIONALLY (supersedes C09_transaction_partial / C09_history_partial) ----
+   The hypothesis `traversal_live rv_fixed` is gone: theories/TraversalLiveProofs.v derives from the
+   C14 / C17 / C18 developments (under the graph invariant wf, part of Inv) that every id returned by
+   any search of the repaired code exists (`search_live_fixed`).  [As literally stated the old hypothesis
+   was even too strong to hold — its path-search clause did not ask for an existing origin, see
+   C10_traversal_live_refuted — so the two `_partial` theorems above were vacuous; they are kept only
+   for the record.]
+   STILL RESTRICTED HERE TO histories in which no query fails (`all_succeed`); histories WITH failing
+   queries / rolled-back transactions are covered by C13_history_atomic (Props/C13.v), which gives Inv
+   — hence the two conjuncts below — after EVERY history (with the capacity bound 2^63 of C13). *)
+From Agdb Require Import TraversalLiveProofs DbInvariantProofs.
+
+Theorem C09_transaction :
+  forall d qs acc, Forall query_ok qs -> Inv d ->
+  let d1 := fst (fst (txn_run rv_fixed d qs acc)) in kvs_distinct (vals d1) /\ vals_live d1.
+Proof. intros d qs acc Hq Hd. apply Inv_values. now apply transaction_state_Inv_fixed. Qed.
+Print Assumptions C09_transaction.
+
+Theorem C09_history :
+  forall qs, Forall query_ok qs -> all_succeed rv_fixed db_new qs ->
+  kvs_distinct (vals (exec_all rv_fixed db_new qs)) /\ vals_live (exec_all rv_fixed db_new qs).
+Proof. exact history_values_fixed. Qed.
+Print Assumptions C09_history.
